@@ -187,6 +187,8 @@ def value_class(kind: str, v, build: Optional[Build] = None, type_name: Optional
     if isinstance(v, dict):
         if not v:
             return "empty-msg"
+        if _only_empties(v):
+            return "msg-only-empties"  # nothing but (nested) present-but-empty messages: equal to the default up to presence
         if build is not None and type_name in build.msgs:
             mi = build.msgs[type_name]
             try:
@@ -197,6 +199,12 @@ def value_class(kind: str, v, build: Optional[Build] = None, type_name: Optional
                 pass
         return "msg"
     return type(v).__name__
+
+
+def _only_empties(v) -> bool:
+    if not isinstance(v, dict):
+        return False
+    return all(isinstance(x, dict) and (not x or _only_empties(x)) for x in v.values())
 
 
 # ---------------------------------------------------------------------------
